@@ -81,3 +81,48 @@ Theorem C11_imtlg_v0_refuted :
     vscaleR t (combineR J (imtlg_weights_v0 RN P (gramR J) (1 / 10 ^ 12))).
 Proof. exact imtlg_v0_not_homogeneous. Qed.
 Print Assumptions C11_imtlg_v0_refuted.
+
+(* ---- homogeneity of the remaining aggregators (added).  Kernel oracles on the scaled side receive
+   the scaled arguments (sigma_max t*s, eigenvalues t^2*lam, the same pinv oracle for the unchanged
+   unit rows, the same conic answer in the invariant normalised geometry): homogeneity of the
+   kernels themselves is the oracle contract, the glue is what is proved. ---- *)
+From TJ.proofs Require Import QPProofs C03Proofs C18Proofs C16Proofs HomogeneityProofs.
+Theorem C11_homogeneous_pcgrad : forall n t perms J, wfmat n J -> 0 < t ->
+  agg_pcgrad RN perms (mscale RN t J) = vscaleR t (agg_pcgrad RN perms J).
+Proof. exact pcgrad_homogeneous. Qed.
+Print Assumptions C11_homogeneous_pcgrad.
+Theorem C11_homogeneous_krum : forall n t f k J, wfmat n J -> 0 < t ->
+  agg_krum RN f k (mscale RN t J) = C08Proofs.res_map (vscaleR t) (agg_krum RN f k J).
+Proof. exact krum_homogeneous. Qed.
+Print Assumptions C11_homogeneous_krum.
+Theorem C11_homogeneous_dualproj : forall n t qp pref s ne re J, wfmat n J -> 0 < t ->
+  nltb RN (t * s) ne = nltb RN s ne ->
+  agg_dualproj RN qp pref (t * s) ne re (mscale RN t J) =
+  C08Proofs.res_map (vscaleR t) (agg_dualproj RN qp pref s ne re J).
+Proof. exact dualproj_homogeneous. Qed.
+Print Assumptions C11_homogeneous_dualproj.
+Theorem C11_homogeneous_upgrad : forall n t qp pref s ne re J, wfmat n J -> 0 < t ->
+  nltb RN (t * s) ne = nltb RN s ne ->
+  agg_upgrad RN qp pref (t * s) ne re (mscale RN t J) =
+  C08Proofs.res_map (vscaleR t) (agg_upgrad RN qp pref s ne re J).
+Proof. exact upgrad_homogeneous. Qed.
+Print Assumptions C11_homogeneous_upgrad.
+Theorem C11_homogeneous_cagrad : forall n t s ne c w_opt J, wfmat n J -> 0 < t ->
+  nltb RN (t * s) ne = nltb RN s ne ->
+  agg_cagrad RN (t * s) ne c w_opt (mscale RN t J) = vscaleR t (agg_cagrad RN s ne c w_opt J).
+Proof. exact cagrad_homogeneous. Qed.
+Print Assumptions C11_homogeneous_cagrad.
+Theorem C11_homogeneous_config : forall t B pref J, 0 < t ->
+  config_units RN (mscale RN t J) = config_units RN J /\
+  agg_config RN B pref (mscale RN t J) = C08Proofs.res_map (vscaleR t) (agg_config RN B pref J).
+Proof. exact config_homogeneous. Qed.
+Print Assumptions C11_homogeneous_config.
+Theorem C11_homogeneous_aligned : forall n t lam Vt tol pref J, wfmat n J -> 0 < t ->
+  agg_aligned RN (vscaleR (t * t) lam) Vt (t * t * tol) pref (mscale RN t J) =
+  C08Proofs.res_map (vscaleR t) (agg_aligned RN lam Vt tol pref J).
+Proof. exact aligned_homogeneous. Qed.
+Print Assumptions C11_homogeneous_aligned.
+Theorem C11_homogeneous_graddrop : forall t leak U J, 0 < t ->
+  agg_graddrop RN leak U (mscale RN t J) = C08Proofs.res_map (vscaleR t) (agg_graddrop RN leak U J).
+Proof. exact graddrop_homogeneous. Qed.
+Print Assumptions C11_homogeneous_graddrop.
